@@ -38,6 +38,13 @@ pub struct Scenario {
     /// set by the check itself: this garbage case is already running in its own process
     #[serde(default)]
     pub in_child: bool,
+    /// fidelity arm: the history is applied in this many slices; after each slice (and an optional
+    /// purge, bit i of `purge_mask`) the receiver fetches the state again. A slice may be empty
+    /// (then only the purge separates two fetches).
+    #[serde(default)]
+    pub phases: usize,
+    #[serde(default)]
+    pub purge_mask: u32,
 }
 
 pub struct C19;
@@ -120,7 +127,7 @@ impl Check for C19 {
         "E2: sender host (real KeyspaceGroup + actors + ReplicationService on the real Server) and receiver host (real ReplicationClient::get_state, including its unchecked nested decode) over simulated TCP/HTTP2; garbage arm: a same-URI impostor service answers with an undecodable nested state inside a valid outer frame"
     }
     fn rule(&self) -> &'static str {
-        "Cases: sender states built through the real actor from seeded histories: 0 / tombstone-only / 1..5000 entries, 1-255 origins, both sources, timestamps spread over 4 ms .. 12 h (so per-origin purge cut-offs differ), optionally purged; sizes sweep the nested payload's length and alignment classes. Oracle: the set the receiver obtains lists the same live ids, tombstones and timestamps as the sender's own Serialize output (validated decode), answers will_apply identically on a probe grid around every stored stamp (-1 h, -4 ms, 0, +4 ms, +1 h; held and fresh keys) and around every origin's cut-off, and yields the same diff for seeded third-party sets. Garbage arm (each in its own worker process): nested state empty / random bytes / truncated / one byte flipped -> get_state must return Err, not a set (a returned set, a panic or a crash is the violation). Non-trivial = >= 2 entries or a garbage case. Distinct = hash of (history seed, size, origins, garbage kind)."
+        "Cases: sender states built through the real actor from seeded histories: 0 / tombstone-only / 1..5000 entries, 1-255 origins, both sources, timestamps spread over 4 ms .. 12 h (so per-origin purge cut-offs differ), optionally purged; the history is applied in 1-4 slices (one may be empty) with an optional purge after each, and the receiver fetches after every slice, so consecutive fetches are separated by writes, by a purge only, or by nothing; sizes sweep the nested payload's length and alignment classes. Oracle: the set the receiver obtains lists the same live ids, tombstones and timestamps as the sender's own Serialize output (validated decode), answers will_apply identically on a probe grid around every stored stamp (-1 h, -4 ms, 0, +4 ms, +1 h; held and fresh keys) and around every origin's cut-off, and yields the same diff for seeded third-party sets. Garbage arm (each in its own worker process): nested state empty / random bytes / truncated / one byte flipped -> get_state must return Err, not a set (a returned set, a panic or a crash is the violation). Non-trivial = >= 2 entries or a garbage case. Distinct = hash of (history seed, size, origins, garbage kind)."
     }
     fn assumptions(&self) -> Vec<String> {
         vec![
@@ -137,8 +144,8 @@ impl Check for C19 {
     }
     fn budget(&self, tier: Tier) -> Budget {
         match tier {
-            Tier::Quick => Budget { wall_secs: 60, max_cases: 1_200, checkpoint_every: 1, workers: 16 },
-            Tier::Thorough => Budget { wall_secs: 600, max_cases: 60_000, checkpoint_every: 1, workers: 16 },
+            Tier::Quick => Budget { wall_secs: 60, max_cases: 12_000, checkpoint_every: 1, workers: 16 },
+            Tier::Thorough => Budget { wall_secs: 900, max_cases: 1_000_000, checkpoint_every: 1, workers: 16 },
         }
     }
     fn generate(&self, seed: u64, idx: u64, _tier: Tier) -> Value {
@@ -166,6 +173,8 @@ impl Check for C19 {
             garbage,
             garbage_seed: rng.gen(),
             in_child: false,
+            phases: rng.gen_range(1..=4),
+            purge_mask: rng.gen_range(0..16),
         })
         .unwrap()
     }
@@ -196,6 +205,10 @@ impl Check for C19 {
         let truth: Rc<RefCell<Option<OrSWotSet<2>>>> = Rc::new(RefCell::new(None));
         let truth_bytes: Rc<RefCell<Vec<u8>>> = Rc::new(RefCell::new(Vec::new()));
         let got: Rc<RefCell<Option<Result<OrSWotSet<2>, String>>>> = Rc::new(RefCell::new(None));
+        let truths: Rc<RefCell<Vec<OrSWotSet<2>>>> = Rc::new(RefCell::new(Vec::new()));
+        let gots: Rc<RefCell<Vec<Result<OrSWotSet<2>, String>>>> = Rc::new(RefCell::new(Vec::new()));
+        let (ctl_tx, ctl_rx0) = tokio::sync::mpsc::unbounded_channel::<()>();
+        let ctl_rx = Rc::new(RefCell::new(Some(ctl_rx0)));
         datacake_crdt::verif::set_wall_clock(Some(Box::new(|_n| datacake_crdt::DATACAKE_EPOCH + Duration::from_millis(BASE_MS + 50_000_000) + turmoil::elapsed())));
         let mut sim = turmoil::Builder::new()
             .simulation_duration(Duration::from_secs(3_600))
@@ -205,30 +218,54 @@ impl Check for C19 {
             .build_with_rng(Box::new(rand::rngs::SmallRng::seed_from_u64(sc.net_seed)));
         let ready = Rc::new(tokio::sync::Notify::new());
         {
-            let (hist, truth, truth_bytes, ready, sc2) = (hist.clone(), truth.clone(), truth_bytes.clone(), ready.clone(), sc.clone());
+            let (hist, truth, truth_bytes, ready, sc2, truths, ctl_rx) = (hist.clone(), truth.clone(), truth_bytes.clone(), ready.clone(), sc.clone(), truths.clone(), ctl_rx.clone());
             sim.host("sender", move || {
-                let (hist, truth, truth_bytes, ready, sc) = (hist.clone(), truth.clone(), truth_bytes.clone(), ready.clone(), sc2.clone());
+                let (hist, truth, truth_bytes, ready, sc, truths, ctl_rx) = (hist.clone(), truth.clone(), truth_bytes.clone(), ready.clone(), sc2.clone(), truths.clone(), ctl_rx.clone());
                 async move {
                     let server = Server::listen((IpAddr::from(Ipv4Addr::UNSPECIFIED), PORT).into()).await?;
                     let clock = Clock::new(200);
                     let storage = SimStorage::default();
                     let group = ecv::KeyspaceGroup::new(Arc::new(storage), clock).await;
                     let mb = group.get_or_create_keyspace("ks").await;
-                    for (del, source, id, ts) in &hist {
-                        if *del {
-                            let _ = mb.send(ecv::Del { source: *source, doc: DocumentMetadata::new(*id, *ts), _marker: PhantomData }).await;
-                        } else {
-                            let _ = mb.send(ecv::Set { source: *source, doc: Document::new(*id, *ts, vec![1u8]), ctx: None, _marker: PhantomData }).await;
+                    let phases = if sc.garbage.is_some() { 1 } else { sc.phases.max(1) };
+                    // slice boundaries; with >= 3 phases the second slice is empty on purpose
+                    let n = hist.len();
+                    let bounds: Vec<usize> = (0..=phases).map(|i| if phases >= 3 && i == 2 { n * 1 / phases } else { n * i / phases }).collect();
+                    let mut phase = 0usize;
+                    let mut bytes = Vec::new();
+                    let mut ctl = ctl_rx.borrow_mut().take().expect("sender started twice");
+                    if sc.garbage.is_none() {
+                        server.add_service(ecv::ReplicationService::new(group.clone()));
+                    }
+                    loop {
+                        let (lo, hi) = (bounds[phase].min(n), bounds[phase + 1].max(bounds[phase]).min(n));
+                        for (del, source, id, ts) in &hist[lo..hi] {
+                            if *del {
+                                let _ = mb.send(ecv::Del { source: *source, doc: DocumentMetadata::new(*id, *ts), _marker: PhantomData }).await;
+                            } else {
+                                let _ = mb.send(ecv::Set { source: *source, doc: Document::new(*id, *ts, vec![1u8]), ctx: None, _marker: PhantomData }).await;
+                            }
+                        }
+                        let purge_now = if sc.garbage.is_some() { sc.purge } else { sc.purge_mask & (1 << phase) != 0 || (sc.purge && phase + 1 == phases) };
+                        if purge_now {
+                            let _ = mb.send(ecv::PurgeDeletes(PhantomData::<SimStorage>)).await;
+                        }
+                        bytes = mb.send(ecv::Serialize).await.map_err(|e| e.to_string())?;
+                        truths.borrow_mut().push(decode_set(&bytes)?);
+                        *truth.borrow_mut() = Some(decode_set(&bytes)?);
+                        *truth_bytes.borrow_mut() = bytes.clone();
+                        phase += 1;
+                        if sc.garbage.is_some() || phase >= phases {
+                            break;
+                        }
+                        ready.notify_one();
+                        // wait until the receiver has fetched this phase's state
+                        if ctl.recv().await.is_none() {
+                            break;
                         }
                     }
-                    if sc.purge {
-                        let _ = mb.send(ecv::PurgeDeletes(PhantomData::<SimStorage>)).await;
-                    }
-                    let bytes = mb.send(ecv::Serialize).await.map_err(|e| e.to_string())?;
-                    *truth.borrow_mut() = Some(decode_set(&bytes)?);
-                    *truth_bytes.borrow_mut() = bytes.clone();
                     match &sc.garbage {
-                        None => server.add_service(ecv::ReplicationService::new(group.clone())),
+                        None => {},
                         Some(kind) => {
                             let mut rng = rng_from(sc.garbage_seed);
                             let g: Vec<u8> = match kind.as_str() {
@@ -263,14 +300,21 @@ impl Check for C19 {
             });
         }
         {
-            let (got, ready) = (got.clone(), ready.clone());
+            let (got, ready, gots) = (got.clone(), ready.clone(), gots.clone());
+            let phases = if sc.garbage.is_some() { 1 } else { sc.phases.max(1) };
             sim.client("receiver", async move {
-                ready.notified().await;
                 let addr: SocketAddr = (turmoil::lookup("sender"), PORT).into();
                 let clock = Clock::new(100);
                 let mut client = ecv::ReplicationClient::<SimStorage>::new(clock, Channel::connect(addr));
-                let r = client.get_state("ks").await;
-                *got.borrow_mut() = Some(r.map(|(_, s)| s).map_err(|e| format!("{:?}: {}", e.code, e.message)));
+                for p in 0..phases {
+                    ready.notified().await;
+                    let r = client.get_state("ks").await.map(|(_, s)| s).map_err(|e| format!("{:?}: {}", e.code, e.message));
+                    gots.borrow_mut().push(r.clone());
+                    *got.borrow_mut() = Some(r);
+                    if p + 1 < phases {
+                        let _ = ctl_tx.send(());
+                    }
+                }
                 Ok(())
             });
         }
@@ -330,54 +374,65 @@ impl Check for C19 {
                         out.anomalies.push(format!("{l}: {m}"));
                     }
                 }
-                let Some(truth) = truth else {
+                let Some(_last) = truth else {
                     return Outcome::invalid("sender did not finish building its state");
                 };
-                match got {
-                    Some(Ok(recv)) => {
-                        let (tl, td) = set_listing(&truth);
-                        let (rl, rd) = set_listing(&recv);
-                        if tl != rl {
-                            out.violate("C19/received-live-entries-differ", format!("sender has {} live entries, receiver decoded {}", tl.len(), rl.len()));
-                        }
-                        if td != rd {
-                            out.violate("C19/received-tombstones-differ", format!("sender has {} tombstones, receiver decoded {}", td.len(), rd.len()));
-                        }
-                        let mut mism = 0;
-                        let grid = probe_grid(&truth, &sc);
-                        for (k, t) in &grid {
-                            if truth.will_apply(*k, *t) != recv.will_apply(*k, *t) {
-                                mism += 1;
-                                if mism == 1 {
-                                    out.violate("C19/received-state-decides-differently", format!("will_apply(key {k}, {}) is {} on the sender's state and {} on the received one", t, truth.will_apply(*k, *t), recv.will_apply(*k, *t)));
-                                }
-                            }
-                        }
-                        out.probe_n("will_apply_probes", grid.len() as u64);
-                        // third-party diff equality
-                        let mut rng = rng_from(sc.history_seed ^ 0xd1ff);
-                        for _ in 0..4 {
-                            let mut a = OrSWotSet::<2>::default();
-                            for (del, source, id, ts) in hist.iter().filter(|_| rng.gen_bool(0.5)) {
-                                if *del {
-                                    a.delete_with_source(*source, *id, *ts);
-                                } else {
-                                    a.insert_with_source(*source, *id, *ts);
-                                }
-                            }
-                            if a.diff(&truth) != a.diff(&recv) {
-                                out.violate("C19/diff-against-received-state-differs", "a third replica computes a different difference against the received state than against the sender's".to_string());
-                            }
-                        }
-                        let mut fp = Fnv::new();
-                        for (k, t) in rl.iter().chain(rd.iter()) {
-                            fp.u64(*k).u64(t.as_u64());
-                        }
-                        out.state_fp = fp.finish();
-                    },
-                    Some(Err(e)) => out.violate("C19/get-state-failed-on-a-valid-state", format!("{} entries: {e}", sc.entries)),
-                    None => out.violate("C19/get-state-never-returned", format!("{} entries", sc.entries)),
+                let truths = truths.borrow().clone();
+                let gots = gots.borrow().clone();
+                let phases = sc.phases.max(1);
+                if gots.len() < phases {
+                    out.violate("C19/get-state-never-returned", format!("{} entries: only {} of {} fetches returned", sc.entries, gots.len(), phases));
                 }
+                out.probe_n("fetches", gots.len() as u64);
+                for (pi, (truth, got)) in truths.iter().zip(gots.iter()).enumerate() {
+                    let when = format!("fetch #{} of {}", pi + 1, phases);
+                    match got {
+                        Ok(recv) => {
+                            let (tl, td) = set_listing(truth);
+                            let (rl, rd) = set_listing(recv);
+                            if tl != rl {
+                                out.violate("C19/received-live-entries-differ", format!("{when}: sender has {} live entries, receiver decoded {}", tl.len(), rl.len()));
+                            }
+                            if td != rd {
+                                let extra: Vec<_> = rd.iter().filter(|x| !td.contains(x)).take(3).collect();
+                                out.violate("C19/received-tombstones-differ", format!("{when}: sender has {} tombstones, receiver decoded {} (e.g. only in the received state: {:?})", td.len(), rd.len(), extra));
+                            }
+                            let mut mism = 0;
+                            let grid = probe_grid(truth, &sc);
+                            for (k, t) in &grid {
+                                if truth.will_apply(*k, *t) != recv.will_apply(*k, *t) {
+                                    mism += 1;
+                                    if mism == 1 {
+                                        out.violate("C19/received-state-decides-differently", format!("{when}: will_apply(key {k}, {}) is {} on the sender's state and {} on the received one", t, truth.will_apply(*k, *t), recv.will_apply(*k, *t)));
+                                    }
+                                }
+                            }
+                            out.probe_n("will_apply_probes", grid.len() as u64);
+                            // third-party diff equality
+                            let mut rng = rng_from(sc.history_seed ^ 0xd1ff);
+                            for _ in 0..3 {
+                                let mut a = OrSWotSet::<2>::default();
+                                for (del, source, id, ts) in hist.iter().filter(|_| rng.gen_bool(0.5)) {
+                                    if *del {
+                                        a.delete_with_source(*source, *id, *ts);
+                                    } else {
+                                        a.insert_with_source(*source, *id, *ts);
+                                    }
+                                }
+                                if a.diff(truth) != a.diff(recv) {
+                                    out.violate("C19/diff-against-received-state-differs", format!("{when}: a third replica computes a different difference against the received state than against the sender's"));
+                                }
+                            }
+                            let mut fp = Fnv::new();
+                            for (k, t) in rl.iter().chain(rd.iter()) {
+                                fp.u64(*k).u64(t.as_u64());
+                            }
+                            out.state_fp = fp.finish();
+                        },
+                        Err(e) => out.violate("C19/get-state-failed-on-a-valid-state", format!("{when}, {} entries: {e}", sc.entries)),
+                    }
+                }
+                let _ = got;
             },
         }
         out.nontrivial = sc.entries >= 2 || sc.garbage.is_some();
